@@ -27,10 +27,12 @@ CHECKS = {
                  "the interleaving at every acquisition of a pooled canonicaliser, which previously released object (after whichever other function) or a fresh one is handed out, the "
                  "iteration order of every map range in repository code, and GOMAXPROCS; a fraction of runs re-analyses the file from another directory. Each call's (name, fingerprint, "
                  "canonical IR) list must equal the clean sequential reference. Non-trivial = pooled state reused and (>= 2 tasks or a non-identity map order); distinct = distinct "
-                 "(programs, schedule, GOMAXPROCS). The fpstress job repeats the workload free-running under the race detector."),
+                 "(programs, schedule, GOMAXPROCS). The fphistory job lets ONE pooled canonicaliser analyse 2 000-90 000 functions in a row and compares every "
+                 "repetition of a function with its first analysis (prior history of the process). The fpstress job repeats the workload free-running under the race detector."),
         "jobs": [
             {"engine": "fpsim", "bin": "diff", "test": "TestVerifC01", "cfg": {}, "cpu": 4, "weight": 12, "vary": "universe"},
             {"engine": "fpsim", "bin": "diff", "test": "TestVerifC01", "cfg": {"universe": "1"}, "cpu": 4, "weight": 2},
+            {"engine": "fphistory", "bin": "diff", "test": "TestVerifC01History", "cfg": {}, "cpu": 2, "weight": 2, "max_workers": 2},
             {"engine": "fpstress", "bin": "diff_race", "test": "TestVerifC01Stress", "cfg": {}, "race": True, "cpu": 8, "weight": 2},
         ],
         "assumptions": ["map iteration inside dependencies (x/tools SSA builder, go/types) is not steered, only sampled across processes",
